@@ -131,7 +131,9 @@ def check_interp(run, S, name, spec, kw):
             trig = trel in ('lt', 'le', 'eq')
         if trig:
             dpr = -s if flip else s
-            cands = [A.fn('acos', A.fn('max', A.fn('min', dpr, ONE), -ONE)), A.fn('acos', A.fn('min', A.fn('max', dpr, -ONE), ONE)), A.fn('acos', dpr)]
+            # (on this leaf the sign-normalised dot product lies in [0, 0.9995]: every clamp to [-1, 1], or none, is the same angle)
+            cands = [A.fn('acos', A.fn('max', A.fn('min', dpr, ONE), -ONE)), A.fn('acos', A.fn('min', A.fn('max', dpr, -ONE), ONE)), A.fn('acos', dpr),
+                     A.fn('acos', A.fn('min', dpr, ONE)), A.fn('acos', A.fn('max', dpr, -ONE))]
             ok = False
             for th in cands:
                 w = A.vadd(A.vscale(a, A.fn('sin', th * (ONE - t))), A.vscale(bb, A.fn('sin', th * t)))
